@@ -162,3 +162,32 @@ package internal
 //@   option props=[C13]
 //@   requires c != nil && call != nil
 //@   requires typeChecked-instrument-has-name: len(call.Args) == 1
+
+// ---------------------------------------------------------------------------
+// C16: the generated file is the source with only directive calls replaced.
+// Copy loop of GenerateFile: the bytes written around the generated code are
+// exactly source[package clause offset : start of directive 1],
+// source[end of directive i : start of directive i+1], ...,
+// source[end of last directive :]. Ghost next is the source offset up to which
+// the input has been accounted for (copied, or replaced by generated code); it
+// is defined from the directive positions, not from the code's own variable.
+// What happens to the buffer afterwards (parser.ParseFile, AddNamedImport,
+// format.Node) is assumed to preserve the token sequence (A-fmt).
+
+//@ macro OFF = "(*go/token.File).Offset"
+//@ macro GPOS = "invoke go.uber.org/cff/internal.directiveGenerator.Pos"
+//@ macro GEND = "invoke go.uber.org/cff/internal.directiveGenerator.End"
+
+//@ func (*generator).GenerateFile
+//@   option nosafety=true
+//@   ghost next int = 0
+//@   ghost ncopy int = 0
+//@   requires g != nil && f != nil && f.AST != nil && g.fset != nil
+//@   at slice 1 assert [C16] header-is-everything-before-the-package-clause: low == 0 && high == pure($OFF, posFile, f.AST.Package)
+//@   at slice 1 ghost next = high
+//@   loop 2 invariant [C16] source-accounted-for-up-to-the-previous-directives-end: lastOff == next
+//@   at slice 2 assert [C16] copies-from-previous-directives-end-to-this-directives-start: low == next && high == pure($OFF, posFile, pure($GPOS, gen))
+//@   at call Write 1 pre assert [C16] copied-bytes-go-to-the-output-buffer: arg0 == &buff
+//@   at call generate 1 ghost next = pure($OFF, posFile, pure($GEND, gen))
+//@   at slice 3 assert [C16] tail-copied-from-the-last-directives-end-to-end-of-file: low == next && high == baselen
+//@   at call Write 2 pre assert [C16] tail-goes-to-the-output-buffer: arg0 == &buff
